@@ -43,6 +43,8 @@ for kind, pre in (("sync", "s"), ("thread", "t"), ("async", "a")):
     row(pre + "_inv_lru2", kind, inv=True, limit=2, policy="lru")
     row(pre + "_inv_ttl2", kind, inv=True, ttl=2)
     row(pre + "_inv_cif", kind, inv=True, cif=True)
+    row(pre + "_inv_mem", kind, ret="str", inv=True, maxmem=100, policy="lru")
+    row(pre + "_cif_mem", kind, ret="str", cif=True, maxmem=100, policy="fifo")
     # memory-limited (String values: 24 bytes inline + len)
     row(pre + "_mem_fifo", kind, ret="str", maxmem=100, policy="fifo")
     row(pre + "_mem_lru", kind, ret="str", maxmem=100, policy="lru")
@@ -53,6 +55,9 @@ for kind, pre in (("sync", "s"), ("thread", "t"), ("async", "a")):
     row(pre + "_res_mem_lru", kind, ret="res_str", maxmem=100, policy="lru")
     row(pre + "_mem_kb", kind, ret="str", maxmem=1024, maxmem_txt='"1KB"', policy="fifo")
 
+# thread scope combined with invalidation metadata (the metadata is inert, the scope must stay)
+row("t_tags", "thread", tags=["tz"], events=["ez"], limit=2, policy="lru")
+row("t_deps", "thread", deps=["g_a"])
 # invalidation groups (global + async only): tags / events / dependencies / names
 row("g_a", "sync", tags=["ta"], limit=3, policy="lru")
 row("g_ab", "sync", tags=["ta", "tb"], events=["ea"])
